@@ -343,6 +343,10 @@ func init() {
 	reg(&fnSpec{name: "typ", params: []string{"any"},
 		impl: func(v any) string { return fmt.Sprintf("%T", v) },
 		call: func(in []any) (any, error) { return fmt.Sprintf("%T", in[0]), nil }})
+	// round is also a built-in of the expression library, with ANOTHER arity (one argument)
+	reg(&fnSpec{name: "round", params: []string{"float64", "int"},
+		impl: roundTo,
+		call: func(in []any) (any, error) { return roundTo(in[0].(float64), in[1].(int)), nil }})
 	reg(&fnSpec{name: "kinds", params: []string{"any", "any"},
 		impl: func(v, w any) string { return fmt.Sprintf("%T,%T", v, w) },
 		call: func(in []any) (any, error) { return fmt.Sprintf("%T,%T", in[0], in[1]), nil }})
@@ -502,4 +506,12 @@ func divideAny(a, b any) string {
 		return "div0"
 	}
 	return fmt.Sprintf("float:%v", f(a)/f(b))
+}
+
+func roundTo(x float64, digits int) float64 {
+	if digits < 0 || digits > 6 {
+		digits = 0 // keeps the result finite for any argument the generator draws
+	}
+	p := math.Pow(10, float64(digits))
+	return math.Round(x*p) / p
 }
